@@ -134,14 +134,61 @@ def history_case(draw, max_steps):
     return {"formats": formats, "steps": steps}
 
 
-PARTS = {"history": check_history}
+HASH_SEED_CHILD = r"""
+import sys
+sys.path.insert(0, sys.argv[1])
+from clikit.api.args.format import ArgsFormat, Argument, CommandName, Option
+from clikit.args import ArgvArgs
+from clikit.args.default_args_parser import DefaultArgsParser
+fmt = ArgsFormat([CommandName("copy"), Argument("source", Argument.REQUIRED), Argument("target", Argument.REQUIRED),
+                  Argument("mode", Argument.REQUIRED), Argument("owner", Argument.REQUIRED),
+                  Option("force", "f"), Option("tag", "t", Option.MULTI_VALUED), Option("level", "l", Option.REQUIRED_VALUE)])
+for tokens in ([], ["copy"], ["copy", "-f"], ["copy", "a"], ["copy", "a", "b"], ["copy", "a", "b", "c", "d", "-t", "x", "-t", "y", "-l", "2"],
+               ["copy", "--nope"], ["copy", "a", "b", "c", "d", "e"]):
+    for lenient in (False, True):
+        try:
+            a = DefaultArgsParser().parse(ArgvArgs(["prog"] + tokens), fmt, lenient)
+            print(tokens, lenient, "ok", list(a.arguments(True).items()), list(a.options(True).items()))
+        except Exception as e:
+            print(tokens, lenient, type(e).__name__, str(e))
+"""
+
+
+def check_hash_seed(ctx, case):
+    """The same parses in interpreters that differ only in their string-hash seed: identical results and error texts."""
+    import subprocess
+    import sys
+
+    from vf import runner
+
+    ctx.case("hash-seed", case, True)
+    outs = {}
+    for seed in case["seeds"]:
+        env = dict(os.environ, PYTHONHASHSEED=str(seed))
+        p = subprocess.run([sys.executable, "-c", HASH_SEED_CHILD, runner.REPO_SRC], env=env, stdout=subprocess.PIPE,
+                           stderr=subprocess.STDOUT, text=True, timeout=120)
+        outs[seed] = p.stdout
+    first = outs[case["seeds"][0]]
+    if "Traceback" in first or not first.strip():
+        raise AssertionError("hash-seed child failed: %s" % first[-500:])
+    for seed, out in outs.items():
+        if out != first:
+            diff = [(a, b) for a, b in zip(first.splitlines(), out.splitlines()) if a != b][:2]
+            ctx.fail("hash-seed", "C05.same-as-fresh", case, {"seed %s" % case["seeds"][0]: [d[0] for d in diff]},
+                     {"seed %s" % seed: [d[1] for d in diff]}, sig="depends-on-hash-seed")
+            return
+
+
+PARTS = {"history": check_history, "hash-seed": check_hash_seed}
 
 
 HYP = {"history": (lambda ctx: history_case(6 if ctx.tier == "quick" else 12), check_history)}
+import os  # noqa: E402
 
 def run(ctx):
     quick = ctx.tier == "quick"
     ctx.hyp_sharded("history", 6000 if quick else 60000, salt=1)
+    check_hash_seed(ctx, {"seeds": [0, 1, 2, 3] if quick else list(range(12))})
     try:
         from props import c17
     except ImportError:
